@@ -109,7 +109,7 @@ def check_property_file(pid, scratch):
     out = p.stdout + p.stderr
     ok = p.returncode == 0
     closed = len(re.findall(r"Closed under the global context", out))
-    axioms = sorted(set(re.findall(r"^([A-Za-z_][\w.]*)\s*:", out, flags=re.M))) if "Axioms:" in out else []
+    axioms = sorted(set(re.findall(r"^([A-Za-z_][\w.]*)\s*:", out, flags=re.M)) - {"Axioms"}) if "Axioms:" in out else []
     return {"obligations": len(theorems), "discharged": len(theorems) if ok else 0,
             "theorems": theorems, "closed_count": closed, "axioms": axioms,
             "log": out[-3000:], "ok": ok}
